@@ -127,7 +127,7 @@ def edit_labels(labels, er):
     keys = sorted(groups)
     for p in keys:
         if er.random() < 0.35:
-            w = max(1.0, out[groups[p][0]]["w"] * er.choice([0.5, 1.5, 2.0, 4.0]))
+            w = max(1.0, out[groups[p][0]]["w"] * er.choice([0.5, 1.5, 2.0, 4.0])) if er.random() < 0.85 else 0
             for i in groups[p]:
                 out[i]["w"] = w
     if er.random() < 0.5:
